@@ -860,6 +860,183 @@ example :
       ∧ (idsF [t]).Nodup ∧ (runForest [t] ⟨[], 0⟩).count 3 = 1 := by
   decide
 
+/-! ## Histories: any number of constructor calls, each followed by any later steps (mini-round) -/
+
+/-- One entry of a history: a constructor call (spec, operands, callbacks) and the later steps (builds,
+    inference, value propagation, inspection, copies, …) run on the node it produced. -/
+abbrev HistCall := CtorSpec × Env × Callbacks × List Step
+
+/-- Run a whole history: every constructor call (failing or not), each successful one followed by its steps. -/
+def runHistory (calls : List HistCall) (w : World) : World :=
+  calls.foldl (fun w k => match construct k.1 k.2.1 k.2.2.1 w with
+    | (.ok node, w1) => runSteps cg node k.2.2.2 w1
+    | (.error _, w1) => w1) w
+
+/-- how often callback `c` was passed to a constructor in the history -/
+def timesPassed (calls : List HistCall) (c : Nat) : Nat :=
+  (calls.map (fun k => (cbIds k.2.2.1 k.1.subgraphs).count c)).sum
+
+/-- every constructor call of the history succeeds (in the world it is made in) -/
+def histOk : List HistCall → World → Prop
+  | [], _ => True
+  | k :: rest, w => ∃ node w1, construct k.1 k.2.1 k.2.2.1 w = (.ok node, w1)
+      ∧ histOk rest (runSteps cg node k.2.2.2 w1)
+
+theorem runHistory_cons (k : HistCall) (rest : List HistCall) (w : World) :
+    runHistory (k :: rest) w = runHistory rest (match construct k.1 k.2.1 k.2.2.1 w with
+      | (.ok node, w1) => runSteps cg node k.2.2.2 w1
+      | (.error _, w1) => w1) := rfl
+
+/-- **Called exactly once, over every history.** Any number of constructor calls — any specs, operands,
+    callbacks, the same callback objects reused or not — each followed by *any* sequence of builds / inference /
+    value propagation / inspection / copy / Graph-method / inline / Var-method steps: if the calls succeed, every
+    callback has been invoked exactly as often as it was passed to a constructor, whatever was built in between
+    and afterwards (lifts `called_once` from one call to every history). -/
+theorem history_called_once (calls : List HistCall) (w : World) (h : histOk calls w) (c : Nat) :
+    (runHistory calls w).count c = w.count c + timesPassed calls c := by
+  induction calls generalizing w with
+  | nil => simp [runHistory, timesPassed]
+  | cons k rest ih =>
+    obtain ⟨node, w1, hc, hrest⟩ := h
+    rw [runHistory_cons, hc]
+    simp only
+    rw [ih _ hrest, called_once k.1 k.2.1 k.2.2.1 w w1 node hc k.2.2.2 c]
+    simp [timesPassed, Nat.add_assoc]
+
+/-- **Never more often than passed, over every history** — failing constructor calls (malformed callbacks,
+    type expressions that raise) included, with any steps after the successful ones. -/
+theorem history_called_at_most (calls : List HistCall) (w : World) (c : Nat) :
+    (runHistory calls w).count c ≤ w.count c + timesPassed calls c := by
+  induction calls generalizing w with
+  | nil => simp [runHistory, timesPassed]
+  | cons k rest ih =>
+    rw [runHistory_cons]
+    have h1 := called_at_most_once k.1 k.2.1 k.2.2.1 w c
+    generalize hr : construct k.1 k.2.1 k.2.2.1 w = r at h1
+    obtain ⟨res, w1⟩ := r
+    have hstep : (match (res, w1) with
+        | (.ok node, w1) => runSteps cg node k.2.2.2 w1
+        | (.error _, w1) => w1) = w1 := by
+      cases res with
+      | error e => rfl
+      | ok node => exact runSteps_safe cg _ callgraph_safe node _ _
+    rw [hstep]
+    have h2 := ih w1
+    simp only [timesPassed, List.map_cons, List.sum_cons] at h1 h2 ⊢
+    omega
+
+/-- A callback object that is new to the history and passed in exactly one role of exactly one call has been
+    invoked exactly once at the end of the history. -/
+theorem history_called_exactly_once (calls : List HistCall) (w : World) (h : histOk calls w) (c : Nat)
+    (hnew : w.count c = 0) (hone : timesPassed calls c = 1) : (runHistory calls w).count c = 1 := by
+  rw [history_called_once calls w h c, hnew, hone]
+
+/-- Non-vacuity: a Loop (callback 5) built three times, then an If whose branches are callbacks 0 and 1, inspected
+    and built, then a second Loop reusing callback 5: `histOk` holds and the counts are 2 / 1 / 1. -/
+example :
+    let loopCbs : Callbacks := fun _ => (5, .returnsVars 2)
+    let ifCbs : Callbacks := fun nm => if nm = "else_branch" then (0, .returnsVars 1) else (1, .returnsVars 1)
+    let env := envOf [("v_initial", [some (f32 [2]).ty])] [] []
+    let hist : List HistCall := [(v21_loop, env, loopCbs, [.build, .build, .build]),
+      (v19_if_, env, ifCbs, [.inspect, .build]), (v17_loop, env, loopCbs, [.infer])]
+    timesPassed hist 5 = 2 ∧ timesPassed hist 0 = 1
+      ∧ (hist.foldl (fun (acc : Bool × World) k => match construct k.1 k.2.1 k.2.2.1 acc.2 with
+          | (.ok _, w1) => (acc.1, w1) | (.error _, w1) => (false, w1)) (true, ⟨[], 0⟩)).1 = true := by
+  decide
+
+/-- Non-vacuity of `histOk` itself: two Loops with the *same* body callback, builds and inference in between —
+    the history succeeds, and `history_called_once` gives count 2 for the reused callback. -/
+example :
+    let loopCbs : Callbacks := fun _ => (5, .returnsVars 2)
+    let env : Env := ⟨fun _ => [some (.tensor 1 (some [.n 2]))], fun _ => none, fun _ => 0⟩
+    let hist : List HistCall := [(v21_loop, env, loopCbs, [.build, .build]), (v17_loop, env, loopCbs, [.infer])]
+    histOk hist ⟨[], 0⟩ ∧ ((runHistory hist ⟨[], 0⟩).count 5 = 2) := by
+  intro loopCbs env hist
+  have hok : histOk hist ⟨[], 0⟩ := by
+    refine ⟨(construct v21_loop env loopCbs ⟨[], 0⟩).1.toOption.get!, (construct v21_loop env loopCbs ⟨[], 0⟩).2, rfl, ?_⟩
+    rw [runSteps_safe cg _ callgraph_safe]
+    exact ⟨(construct v17_loop env loopCbs (construct v21_loop env loopCbs ⟨[], 0⟩).2).1.toOption.get!, _, rfl, trivial⟩
+  refine ⟨hok, ?_⟩
+  rw [history_called_once hist _ hok 5]
+  decide
+
+/-! ## End to end: constructor spec → name-level `subgraph` → node (mini-round) -/
+
+open SubgraphNames SubgraphNamesLemmas in
+/-- **One-body constructors, end to end.** For any constructor with one callback `nm` whose type expression
+    evaluates to `types`, and a callback returning any list `outs` of Vars: the *whole* result of the constructor
+    call — node and world — is determined by the name-level tail of `subgraph` (`subgraphTail`: arguments through
+    the `in{i}` dict, results through the `out{i}` dict): the event's arguments and types are the tail's, the
+    stored graph's arguments are the ids the callback received, and `out_variadic` is the length of the results
+    dict minus `k`. -/
+theorem single_body_end_to_end (nm : String) (e : ListExpr) (k : Int) (env : Env) (cbs : Callbacks) (w : World)
+    (types : List Ty) (he : evalList env e = .ok types) (outs : List Nat)
+    (hb : (cbs nm).2 = .returnsVars outs.length) :
+    let t := subgraphTail types w.fresh (cbs nm).1 outs
+    construct ⟨[(nm, e)], nm, k⟩ env cbs w
+        = (.ok ⟨[(nm, ⟨(cbs nm).1, t.1, t.2.2.results.length⟩)], (t.2.2.results.length : Int) - k⟩,
+           ⟨⟨(cbs nm).1, t.1, t.2.1⟩ :: w.events, w.fresh + types.length⟩)
+      ∧ t.2.1 = types ∧ t.2.2.arguments = t.1 ∧ t.2.2.constructor = (cbs nm).1
+      ∧ t.2.2.results.map (·.2) = outs ∧ t.2.2.results.length = outs.length := by
+  have hr := subgraph_names_refine types (cbs nm).1 outs w
+  have hl : (enumDict "in" types).length = types.length := by rw [enumDict_eq, named_length]
+  have hv : (enumDict "in" types).map (·.2) = types := by rw [enumDict_eq, named_values]
+  have hres := enum_results_positional "out" outs
+  refine ⟨?_, by simp [subgraphTail, hv], hr.2.1, hr.2.2.1, hr.2.2.2, by simp [subgraphTail, hres.1]⟩
+  simp only [construct, runSubgraphs, he, hb, hr.1, lookupGraph, List.find?, beq_self_eq_true, Option.map_some]
+
+/-- **SequenceMap, end to end** (every shipped module; any element type, any additional inputs — sequences or
+    tensors — any returned list): composition of `args_prescribed_sequence_map`'s premises with the name-level
+    refinement. The body's event carries exactly ONNX's prescription, the node has one output per returned Var. -/
+theorem sequence_map_end_to_end {m : String} {s : CtorSpec} (h : (m, "sequence_map", s) ∈ table)
+    (env : Env) (elem : Ty) (extra : List SMOperand)
+    (hs : env.singles "input_sequence" = some (.seq elem))
+    (hl : env.lists "additional_inputs" = extra.map (fun o => some o.ty))
+    (cbs : Callbacks) (outs : List Nat) (hb : (cbs "body").2 = .returnsVars outs.length) (w : World) :
+    ∃ node ins, construct s env cbs w
+        = (.ok node, ⟨⟨(cbs "body").1, ins, seqMapPresc elem extra⟩ :: w.events,
+                      w.fresh + (seqMapPresc elem extra).length⟩)
+      ∧ ins = (SubgraphNames.subgraphTail (seqMapPresc elem extra) w.fresh (cbs "body").1 outs).1
+      ∧ node.outVariadic = outs.length := by
+  have hs' : s = seqMapSpec := by
+    have := spec_of_table h; simpa [accepted] using this
+  subst hs'
+  have h1 := single_body_end_to_end "body" seqMapTypes 0 env cbs w _ (eval_seqMap env elem extra hs hl) outs hb
+  obtain ⟨hc, ht, _, _, _, hn⟩ := h1
+  rw [ht] at hc
+  exact ⟨_, _, hc, rfl, by simp [hn]⟩
+
+/-- **Loop, end to end** (every shipped module; any carried types, any returned list): the body's event carries
+    `(int64[1], bool[1], carried…)` (the known `[1]`-vs-scalar finding, see `args_prescribed_loop_partial`), the
+    node has one output per returned Var minus the condition. -/
+theorem loop_end_to_end {m : String} {s : CtorSpec} (h : (m, "loop", s) ∈ table)
+    (env : Env) (carried : List Ty) (hl : env.lists "v_initial" = carried.map some)
+    (cbs : Callbacks) (outs : List Nat) (hb : (cbs "body").2 = .returnsVars outs.length) (w : World) :
+    ∃ node ins, construct s env cbs w
+        = (.ok node, ⟨⟨(cbs "body").1, ins, loopPrescWith (some [.n 1]) carried⟩ :: w.events,
+                      w.fresh + (loopPrescWith (some [.n 1]) carried).length⟩)
+      ∧ ins = (SubgraphNames.subgraphTail (loopPrescWith (some [.n 1]) carried) w.fresh (cbs "body").1 outs).1
+      ∧ node.outVariadic = (outs.length : Int) - 1 := by
+  have hs' : s = loopSpecWith (some [.n 1]) := by
+    have := spec_of_table h; simpa [accepted] using this
+  subst hs'
+  have h1 := single_body_end_to_end "body" (loopTypes (some [.n 1])) 1 env cbs w _
+    (eval_loop env (some [.n 1]) carried hl) outs hb
+  obtain ⟨hc, ht, _, _, _, hn⟩ := h1
+  rw [ht] at hc
+  exact ⟨_, _, hc, rfl, by simp [hn]⟩
+
+/-- Non-vacuity: `v17_sequence_map` with a sequence and a tensor extra, body returning 3 Vars (one repeated). -/
+example :
+    let env := envOf [("additional_inputs", [some (.seq (f32 [2]).ty), some (f32 [4]).ty])]
+      [("input_sequence", some (.seq (f32 [7]).ty))] []
+    let cbs : Callbacks := fun _ => (4, .returnsVars 3)
+    let r := construct v17_sequence_map env cbs ⟨[], 10⟩
+    r.1.toOption.map (·.outVariadic) = some 3
+      ∧ r.2.events.map (fun e => (e.args, e.types)) = [([10, 11, 12], [(f32 [7]).ty, (f32 [2]).ty, (f32 [4]).ty])]
+      ∧ (SubgraphNames.subgraphTail [(f32 [7]).ty, (f32 [2]).ty, (f32 [4]).ty] 10 4 [12, 10, 12]).1 = [10, 11, 12] := by
+  decide
+
 /-! ## Non-vacuity -/
 
 /-- Scan, two states and one scan input, rank ≥ 1 state: the hypotheses of
